@@ -1,5 +1,5 @@
 (* Props/C20.v — the WebSocket relay transport carries the same byte stream as TCP. *)
-Require Import Base.Bytes Net.Frame Net.FrameProofs Net.Framed Net.FramedProofs Net.Adaptor Net.AdaptorSession Net.Concrete.
+Require Import Base.Bytes Net.Frame Net.FrameProofs Net.Framed Net.FramedProofs Net.Adaptor Net.AdaptorSession Net.Concrete Net.Async Net.AsyncProofs Net.AsyncConvProofs.
 Local Open Scope N_scope.
 
 (* For every packet layer that never panics (C04), every list of complete frames, EVERY way of
@@ -72,6 +72,24 @@ Theorem c20_write_is_one_message : forall frame, frame <> [] ->
   fst (awrite frame) = [IBytes frame] /\
   write_all [WAccept (pred (snd (awrite frame)))] frame = (frame, WOk, []).
 Proof. exact awrite_write_all. Qed.
+
+(* the outgoing side on the tokio connection when read() futures are dropped and the caller writes in between:
+   WebsocketStream::poll_write sends the WHOLE buffer it is offered as one binary message or is not ready
+   (msg_ev n: every accepted call takes at least n bytes, n bounding the reply; not ready otherwise).  Then
+   every burst of reply bytes written by a read() is the whole reply frame (one message), and every write()
+   first sends the whole outstanding reply or nothing and then its own frame: a message never carries part
+   of a frame or two frames.  (With c06_writes_never_split_a_reply this is exactly one message per frame.) *)
+Theorem c20_messages_are_whole_frames_under_cancellation_and_writes :
+  forall (packet : Type) (parse : bytes -> res packet) (ver_of : packet -> option N)
+         (is_keepalive : packet -> bool) (version : N) (m : mode) (verify : bool) (pong : bytes),
+  forall n, (length pong <= n)%nat ->
+  forall fuel c s rs ws cancels wsched,
+    forallb (msg_ev n) ws = true ->
+    Inv packet parse ver_of is_keepalive version m verify pong c s ->
+    Whole packet pong s -> (pend_p s = None -> pend_w s = []) ->
+    Forall (tok_whole packet pong) (aconv packet parse ver_of is_keepalive version m verify pong fuel c s rs ws cancels wsched []).
+Proof. intros. eapply aconv_messages_whole; eassumption. Qed.
+
 
 (* non-vacuity: a frame split across two binary messages with a text message between them, two frames in one
    message, an empty binary message, then closure; 2-byte slices *)
